@@ -164,12 +164,12 @@ UNIT = dict(
             dict(name="g7_rows_default_impl_3_to_2", kind="bounded", covers=1, timeout=1200,
                  bound="source 1x4, crop height 3.0 -> 2 rows (concrete), EVERY f64 crop top accepted by crop(); default ImageView::iter_rows_with_step (TypedImage)",
                  claim="exactly dst_h rows are produced and row y is floor(top + (y+0.5)*ch/dh) (either neighbour within 1e-9 of a pixel edge)"),
-            dict(name="g7_rows_typed_ref_subulp_to_1", kind="bounded", covers=1, timeout=1200,
+            dict(name="g7_rows_typed_ref_subulp_to_1", kind="bounded", covers=1, timeout=1200, props=["C11", "C03", "C05"],
                  bound="source 1x8, crop height 2^-50 (one ulp of a crop top in [4,8)) -> 1 row, EVERY f64 crop top accepted by crop()",
                  claim="exactly one row is produced, the row under the crop (a crop flush against the bottom edge included)"),
-            dict(name="g7_col_in_bounds", kind="complete", covers=1, timeout=900,
+            dict(name="g7_col_in_bounds", kind="complete", covers=1, timeout=900, props=["C11", "C03"],
                  claim="for every crop box accepted by crop(), every W, dst_w, x < dst_w: the tabulated column is < W"),
-            dict(name="g7_col_is_pixel_under_centre", kind="complete", covers=1, timeout=1500, tier="thorough",
+            dict(name="g7_col_is_pixel_under_centre", kind="complete", covers=1, timeout=1500, tier="thorough", props=["C11"],
                  claim="for all integer crops (left, cw <= 65535), all dst_w <= 65535, all x: column == left + floor((2x+1)cw / 2dw) "
                        "(either neighbour when the centre is within 2^-30 of a pixel edge)"),
         ],
